@@ -36,11 +36,13 @@ theorem offer_inv (c : Ctx) (b : Bytes) (h : c.Inv) : (c.offer b).1.Inv := by
         rcases hmem with hmem | rfl
         · exact h m hmem
         · exact hmatch
-      · intro m hmem
-        simp only [List.mem_append, List.mem_singleton] at hmem
-        rcases hmem with hmem | rfl
-        · exact h m (List.mem_of_mem_tail hmem)
-        · exact hmatch
+      · split
+        · exact h
+        · intro m hmem
+          simp only [List.mem_append, List.mem_singleton] at hmem
+          rcases hmem with hmem | rfl
+          · exact h m (List.mem_of_mem_tail hmem)
+          · exact hmatch
 
 theorem subscribe_inv (c : Ctx) (t : Bytes) (h : c.Inv) : (c.subscribe t).Inv := by
   unfold Ctx.subscribe
